@@ -114,7 +114,7 @@ def twice(R, f, args, pick, ref, tol, sig, fn, kind, what, held):
     ok = True
     for nth in ('first', 'second'):
         out = R.call(f, *args, sig=sig + ':exception')
-        s = sig if nth == 'first' else f'{fn}:second-use:{kind}'
+        s = sig if (nth == 'first' or not ok) else f'{fn}:second-use:{kind}'    # a wrong first result keeps its own signature
         ok = R.expect_close(pick(out, s), ref, tol, s, what + (' [second evaluation with the same coefficient objects]' if nth == 'second' else '')) and ok
     R.expect(freeze(held) == before, f'{fn}:coefs-mutated:{kind}', what + ': the caller\'s coefficient container was modified')
     return ok
@@ -222,7 +222,10 @@ def run_jacobi(case, seed, R):
     for cname, c in sets_for(kind, L, seed, 3):
         s = container(c, kind)
         ref, cond = explicit_sum(values_of(s), modes)
-        tol = KTOL * eps_of(kind) * cond
+        # next to (not on) the line alpha+beta=0 the n=0 recurrence coefficient (a^2-b^2)/(a+b) is a removable singularity
+        # evaluated with relative error eps/|a+b|: that conditioning belongs to the parameters, not to the routine
+        kappa = 1.0 if a + b == 0 else max(1.0, 1.0 / abs(a + b))
+        tol = KTOL * eps_of(kind) * cond * kappa
         what = f'L={L} (a,b)=({a},{b}) x {form} coefs {cname} as {kind}'
         twice(R, P.jacobi_sum_clenshaw, (s, a, b, x), pick, ref, tol, sig, 'jacobi_sum_clenshaw', kind, what, s)
         if form in ('1d', '2d') and cname in ('unit0', 'dense'):
@@ -629,6 +632,92 @@ def run_lstsq_cond(case, seed, R):
 
 
 # ---------------------------------------------------------------------------------------------
+# dtype alphabets
+
+def kind_of(dt):
+    k = np.dtype(dt).kind
+    return {'f': 'float', 'i': 'int', 'u': 'int', 'b': 'bool'}[k]
+
+
+def cast_values(v, dt, seed_scale=3.0):
+    """Generic values held in dtype dt: non-integer for floats, small integers for ints, a threshold for bool."""
+    dt = np.dtype(dt)
+    if dt.kind == 'f':
+        return np.asarray(v).astype(dt)
+    if dt.kind == 'b':
+        return np.asarray(v) > 0
+    q = np.round(np.asarray(v) * seed_scale)
+    if dt.kind == 'u':
+        q = np.abs(q)
+    return q.astype(dt)
+
+
+def run_sum_modes_dtypes(case, seed, R):
+    K, (ny, nx), md, wd = case['K'], case['shape'], case['modes'], case['weights']
+    modes = cast_values(dense((K, ny, nx), seed, 11, complex_=False), md)
+    sets = [('dense', cast_values(dense((K,), seed, 12, complex_=False), wd, 2.0))]
+    for k in range(K):
+        e = np.zeros(K, dtype=wd)
+        e[k] = 1
+        sets.append((f'unit{k}', e))
+    eps = max(float(np.finfo(d).eps) for d in (md, wd, 'float64') if np.dtype(d).kind == 'f')
+    sig = f'sum_of_2d_modes:dtype:modes={kind_of(md)},weights={kind_of(wd)}'
+    for cname, w in sets:
+        ref, cond = explicit_sum([float(v) for v in w], modes.astype(float))
+        for mform in ('ndarray', 'list'):
+            arg = modes.copy() if mform == 'ndarray' else [m.copy() for m in modes]
+            twice(R, P.sum_of_2d_modes, (arg, w), lambda out, s_: out, ref, 64 * eps * cond, sig, 'sum_of_2d_modes', f'{wd}',
+                  f'K={K} {ny}x{nx} modes {md} as {mform}, weights {cname} {wd} = {w.tolist()}', (arg, w))
+    R.nontrivial()
+    R.outcome(f'modes={md},weights={wd}')
+
+
+def quantise(v, dt):
+    """Measurement-like data of dtype dt made from the real-valued surface v (counts / quantised heights / a threshold map)."""
+    dt = np.dtype(dt)
+    if dt.kind == 'f':
+        return v.astype(dt)
+    span = float(np.max(np.abs(v))) or 1.0
+    if dt.kind == 'b':
+        return v > float(np.median(v))
+    if dt.kind == 'u':
+        return np.round(1000.0 + 900.0 * v / span).astype(dt)
+    return np.round(100.0 * v / span).astype(dt)
+
+
+def run_lstsq_dtypes(case, seed, R):
+    name, ny, nx, dd, md, mask = case['basis'], case['ny'], case['nx'], case['data'], case['modes'], case['mask']
+    modes = basis_modes(name, ny, nx).astype(md)          # not integer valued (normalised coordinates)
+    K = modes.shape[0]
+    inv = invalid_mask(mask, ny, nx)
+    valid = ~inv
+    Bv = modes.astype(float).reshape(K, -1).T[valid.ravel()]
+    if Bv.shape[0] < K or np.linalg.matrix_rank(Bv) < K:
+        R.outcome('rank-deficient-skipped')
+        return
+    sv = np.linalg.svd(Bv, compute_uv=False)
+    cond = float(sv[0] / sv[-1])
+    eps = max(float(np.finfo(d).eps) for d in (dd, md, 'float64') if np.dtype(d).kind == 'f')
+    sig = f'lstsq:dtype:data={dd},modes={md}'
+    B = modes.astype(float).reshape(K, -1).T
+    for cname, c in coef_sets(K, seed, 13, ints=False, dense_first=True):
+        data = quantise((B @ np.asarray(c)).reshape(ny, nx), dd)
+        if inv.any():
+            data = data.copy()
+            data[inv] = np.nan                 # float dtypes only (see plan)
+        dv = data.astype(float)[valid]
+        cref = np.linalg.lstsq(Bv, dv, rcond=None)[0]      # float64 least squares on the exact values held by data and modes
+        res = float(np.linalg.norm(Bv @ cref - dv))
+        tol = KTOL * eps * (cond * float(np.linalg.norm(cref)) + cond ** 2 * res / float(sv[0]))
+        for mform in (('ndarray', 'list') if cname == 'dense' else ('ndarray',)):
+            arg = modes.copy() if mform == 'ndarray' else [m.copy() for m in modes]
+            got = R.call(P.lstsq, arg, data, sig=sig + ':exception')
+            R.expect_close(got, cref, tol, sig, f'{name} {ny}x{nx} mask={mask} data {dd} modes {md} as {mform} coefs {cname} (cond {cond:.1f}, residual {res:.2e})')
+    R.nontrivial()
+    R.outcome(f'data={dd},modes={md}')
+
+
+# ---------------------------------------------------------------------------------------------
 
 def plan(tier, seed):
     quick = tier == 'quick'
@@ -639,8 +728,17 @@ def plan(tier, seed):
                 for lay in LAYOUTS if lay == 'C' or (s[0] > 1 and s[0] != s[1] and dt == 'float64')]
 
     abs_ = [[0, 0], [0, 4], [-0.5, 0.5], [-0.5, -0.5], [1, 2], [2.5, 0.5]] + ([] if quick else [[0.5, -0.5], [3, 0], [0, 1.5], [4, 4]])
+    # the lines alpha+beta = 0 and alpha+beta = -1, on which denominators of the three-term recurrence vanish at n = 0
+    # (alpha != beta as well as alpha == beta), pairs next to those lines, and other lines for contrast; all with alpha, beta > -1
+    abs_lines = [[0.5, -0.5], [0.3, -0.3], [-0.3, 0.3], [-0.9, 0.9],
+                 [-0.25, -0.75], [-0.75, -0.25], [-0.1, -0.9], [-0.125, -0.875],
+                 [0.3, -0.3 + 1e-6], [0.3, -0.3 - 1e-4], [-0.25, -0.75 + 1e-6], [-0.25, -0.75 - 1e-9], [-0.5, -0.5 + 1e-8],
+                 [0.25, 0.75], [-0.25, -0.25], [0.5, 0.5], [-0.9, -0.05]]
+    abs_lines = [ab for ab in abs_lines if ab not in abs_]
     jac_cases = [{'L': L, 'ab': ab, 'x': f, 'coefs_as': cf}
                  for L in range(1, LMAX + 1) for ab in abs_ for f in XFORMS for cf in CONTAINERS]
+    jac_cases += [{'L': L, 'ab': ab, 'x': f, 'coefs_as': cf}
+                  for L in range(1, LMAX + 1) for ab in abs_lines for f in (['pyfloat', '2d'] if quick else XFORMS) for cf in CONTAINERS[:2]]
 
     LQ = LMAX if quick else 12
     q1_cases = [{'family': fam, 'L': L, 'x': f, 'coefs_as': cf}
@@ -690,6 +788,16 @@ def plan(tier, seed):
         cc += [{'family': 'near-duplicate', 'param': p, 'mask': mk, 'fill': fl}
                for p in (1e-1, 1e-2, 1e-3, 1e-4, 1e-5, 1e-6, 1e-7, 1e-8, 1e-9, 1e-10) for mk in ('none', 'ragged') if mk != 'none' or fl == 'nan']
 
+    MD = ['float64', 'float32', 'int32', 'int16', 'uint8', 'bool']
+    WD = ['float64', 'float32', 'int32', 'int8', 'uint16', 'bool']
+    smd_cases = [{'K': K, 'shape': sh, 'modes': md, 'weights': wd}
+                 for K in (1, 2, 3, 5) for sh in ([3, 4], [4, 3]) for md in MD for wd in WD if not (md == 'bool' and wd == 'bool')]
+    DD = ['int8', 'int16', 'int32', 'int64', 'uint8', 'uint16', 'bool', 'float32', 'float64']
+    lsd_cases = [{'basis': b, 'ny': ny, 'nx': nx, 'data': dd, 'modes': md, 'mask': mk}
+                 for b in ('legendre', 'xy', 'zernike') for ny, nx in ([5, 6], [7, 5], [9, 7]) for dd in DD for md in ('float64', 'float32')
+                 for mk in ([{'kind': 'none'}] + ([{'kind': 'row', 'i': 1}, {'kind': 'circle'}, {'kind': 'ragged'}] if dd.startswith('float') else []))
+                 if not (dd == 'float64' and md == 'float64')]
+
     return [
         ScopeUnit('sum_of_2d_modes', sm_cases, run_sum_modes,
                   f'every mode count K in 1..{LMAX} x shapes {sm_shapes} x modes given as 3-D array / list of 2-D arrays x float64/float32; '
@@ -697,7 +805,8 @@ def plan(tier, seed):
                   f'one seeded dense stack (all weight containers) and integer-labelled modes (list / float64 weights); weights = every unit vector (float and int valued) + one seeded dense, held as {CONTAINERS} '
                   '(list / float64 array / row of a 2-D float64 table / float32 array / int64 array); every evaluation is made TWICE with the same coefficient objects (second result = first = reference; containers must be left unchanged); oracle: explicit loop over modes', reset=reset_all),
         ScopeUnit('jacobi_sum_clenshaw', jac_cases, run_jacobi,
-                  f'every length L in 1..{LMAX} x (alpha,beta) in {abs_} x coordinate form {XFORMS} x coefficient container {CONTAINERS}; '
+                  f'every length L in 1..{LMAX} x (alpha,beta) in {abs_} x coordinate form {XFORMS} x coefficient container {CONTAINERS}, plus (list / float64 coefficients) the parameter pairs {abs_lines} '
+                  'on and next to the lines alpha+beta=0 and alpha+beta=-1 where recurrence denominators vanish at n=0 (tolerance scaled by 1/|alpha+beta| off the line); '
                   'every unit vector (float and int valued) + one seeded dense; every evaluation is made TWICE with the same coefficient objects (second result = first = reference; containers must be left unchanged); with and without caller-supplied alphas; oracle sum_n s_n jacobi(n,a,b,x)', reset=reset_all),
         ScopeUnit('qbfs_qcon', q1_cases, run_q1d,
                   f'clenshaw_qbfs, compute_z_zprime_Qbfs, compute_z_zprime_Qcon: every length L in 1..{LQ} x coordinate form {XFORMS} x coefficient container {CONTAINERS} '
@@ -717,6 +826,14 @@ def plan(tier, seed):
                   'seeded dense; data = B c and B c + r (r orthogonal to the basis on exactly the valid samples, so any other sample selection changes the answer); '
                   f'modes as array and as list; for the dense vector and every non-empty mask the modes additionally NaN / +-inf / finite-but-1e200 (its square overflows) at exactly the samples the data marks invalid {MODES_AT_IGNORED} (the reference fits the valid samples only); for the dense vector and every mask other than the single-sample ones additionally data / mode stack / mode list in memory layouts {LAYOUTS[1:]}; masks leaving the basis rank-deficient on the valid samples (numpy matrix_rank) are counted under outcome '
                   '"rank-deficient-skipped" and not judged', reset=reset_all),
+        ScopeUnit('sum_of_2d_modes_dtypes', smd_cases, run_sum_modes_dtypes,
+                  f'dtype alphabet: modes held as {MD} (non-integer values for the float types, small integers / indicator maps otherwise) x weights held as {WD} '
+                  '(bool x bool excluded: not a plausible call), K in {1,2,3,5}, 3x4 and 4x3, modes as array and list; dense weights + every unit vector, each evaluated twice; '
+                  'reference: explicit float64 sum of the exact values held; tolerance at the coarsest floating type involved', reset=reset_all),
+        ScopeUnit('lstsq_dtypes', lsd_cases, run_lstsq_dtypes,
+                  f'dtype alphabet: data held as {DD} (rounded counts / quantised heights / a threshold map; the float types also with NaN masks) x modes float64 / float32 '
+                  '(normalised coordinates, never integer valued) x 3 bases x grids 5x6, 7x5, 9x7; dense + every unit synthesis vector; reference: float64 least squares '
+                  '(numpy SVD) on the exact values held by data and modes, tolerance k eps (cond |c| + cond^2 |residual| / smax) at the coarsest floating type involved', reset=reset_all),
         ScopeUnit('lstsq_conditioning', cc, run_lstsq_cond,
                   'conditioning alphabet: independent but strongly correlated modes -- monomials of total degree 2..8 on [0.5,1]^2 (cond 2e2..1e9), Zernike 1..10 on shrinking '
                   'off-centre sub-apertures (cond 1e1..2e9) and under off-centre circular NaN masks of a full grid, a near-duplicate mode x + p x^3 next to x (cond ~ 1/p, p = 1e-1..1e-10); '
